@@ -114,6 +114,8 @@ structure IsAromFormOf (k t : Mol) : Prop where
   bonds : ∀ n m b, k.bond? n m = some b → ∃ b', t.bond? n m = some b' ∧
       (AromOrder b.order b'.order ∨ (b.order = 2 ∧ b'.order = 1 ∧ Touched t n ∧ Touched t m))
   hydrogens : ∀ n x y, k.atom? n = some x → t.atom? n = some y → x.implH = y.implH
+  /-- aromatic bonds come in rings: an atom of the aromatic form never carries exactly one aromatic bond -/
+  closed : ∀ r ∈ t.adj, (r.2.filter (·.2.order == 4)).length ≠ 1
 
 def aromOrderB (o o' : Nat) : Bool := o' == o || (o' == 4 && (o == 1 || o == 2))
 
@@ -126,6 +128,7 @@ def aromRowOk (t : Mol) (r s : Nat × List (Nat × Bond)) : Bool := r.1 == s.1 &
 def aromAtomOk (x y : Nat × Atom) : Bool := x.1 == y.1 && core x.2 == core y.2 && x.2.implH == y.2.implH
 
 def checkThiele (k t : Mol) : Bool :=
-  all2 aromAtomOk k.atoms t.atoms && all2 (aromRowOk t) k.adj t.adj
+  all2 aromAtomOk k.atoms t.atoms && all2 (aromRowOk t) k.adj t.adj &&
+  t.adj.all fun r => (r.2.filter (·.2.order == 4)).length != 1
 
 end ChythonModel.Spec.Kekule
